@@ -215,6 +215,10 @@ func (c *Collector) Violate(v *Violation) {
 // Mark records, outside the Go heap, which Case is about to execute, so that
 // a runtime fatal error of this process can be attributed.
 func (c *Collector) Mark(cs Case) {
+	if c.Stats["cases_marked"] > 0 && simctx.MemEvents.Load() != c.memAtMark {
+		c.Stats["cases_cut_by_memory_pressure"]++ // the previous case was cut short: it decided less, or nothing
+	}
+	c.Stats["cases_marked"]++
 	simctx.Relieve()
 	c.memAtMark = simctx.MemEvents.Load()
 	c.markNanos.Store(time.Now().UnixNano())
